@@ -2,6 +2,7 @@
 
 from __future__ import annotations
 
+from copy import copy
 from dataclasses import dataclass, field
 from typing import TYPE_CHECKING, Any, TypeVar
 
@@ -324,6 +325,11 @@ class Extension:
         Returns:
             The added operation definition, now associated with the extension.
         """
+        if op_def._extension is not None and op_def._extension is not self:
+            # The definition belongs to another extension, which keeps it:
+            # add a copy, with its own signature object.
+            op_def = copy(op_def)
+            op_def.signature = copy(op_def.signature)
         if op_def.signature.poly_func is not None:
             # Ensure the op def signature has the extension as a requirement
             op_def.signature.poly_func = op_def.signature.poly_func.with_runtime_reqs(
@@ -343,6 +349,9 @@ class Extension:
         Returns:
             The added type definition, now associated with the extension.
         """
+        if type_def._extension is not None and type_def._extension is not self:
+            # The definition belongs to another extension, which keeps it.
+            type_def = copy(type_def)
         type_def._extension = self
         self.types[type_def.name] = type_def
         return self.types[type_def.name]
@@ -356,6 +365,12 @@ class Extension:
         Returns:
             The added value, now associated with the extension.
         """
+        if (
+            extension_value._extension is not None
+            and extension_value._extension is not self
+        ):
+            # The value belongs to another extension, which keeps it.
+            extension_value = copy(extension_value)
         extension_value._extension = self
         self.values[extension_value.name] = extension_value
         return self.values[extension_value.name]
